@@ -8,6 +8,8 @@ import (
 	"encoding/json"
 	"flag"
 	"fmt"
+	"github.com/flanglet/kanzi-go/v2/bitstream"
+	"github.com/flanglet/kanzi-go/v2/entropy"
 	"io"
 	"math/rand"
 	"os"
@@ -383,6 +385,172 @@ func frameMutations(b *baseStream) []mutation {
 	return out
 }
 
+// ---- frames built from scratch around forged transform payloads ------------------------------------------------------------
+type memSink struct{ b []byte }
+
+func (m *memSink) Write(p []byte) (int, error) { m.b = append(m.b, p...); return len(p), nil }
+func (m *memSink) Close() error                { return nil }
+
+// reframe1 builds a one-block stream: the genuine header hdr (a whole number of bytes), then a frame whose transform payload is
+// `payload`, entropy coded by the real encoder of type etype, then the end marker. The block checksum field (if the header
+// announces one) holds an arbitrary value: the stages in front of the checksum test are the ones under test.
+func reframe1(hdr []byte, ckBits int, payload []byte, ename string) ([]byte, error) {
+	frame := &memSink{}
+	fbs, _ := bitstream.NewDefaultOutputBitStream(frame, 16384)
+	ds := 1
+	for ds < 4 && len(payload) >= 1<<uint(8*ds) {
+		ds++
+	}
+	fbs.WriteBits(uint64((ds-1)<<5), 8) // mode: size of the length field, no stage skipped
+	fbs.WriteBits(uint64(len(payload)), uint(8*ds))
+	if ckBits > 0 {
+		fbs.WriteBits(0x123456789ABCDEF0>>uint(64-ckBits), uint(ckBits))
+	}
+	et, err := entropy.GetType(ename)
+	if err != nil {
+		return nil, err
+	}
+	ee, err := entropy.NewEntropyEncoder(fbs, map[string]any{}, et)
+	if err != nil {
+		return nil, err
+	}
+	if _, err = ee.Write(payload); err != nil {
+		return nil, err
+	}
+	ee.Dispose()
+	fbs.Close()
+	written := fbs.Written()
+	out := &memSink{}
+	out.Write(hdr)
+	obs, _ := bitstream.NewDefaultOutputBitStream(out, 16384)
+	lw := uint(3)
+	for (uint64(1) << lw) <= written {
+		lw++
+	}
+	obs.WriteBits(uint64(lw-3), 5)
+	obs.WriteBits(written, lw)
+	obs.WriteArray(frame.b, uint(written))
+	obs.WriteBits(0, 8) // end marker
+	obs.Close()
+	return out.b, nil
+}
+
+// lzLiteralOnly is the output format of the LZ / LZX forward transform for a block that is one literal run of litLen equal bytes and
+// no match: three little-endian offsets, a flag byte, the literal length, the literals, one token
+func lzLiteralOnly(litLen int, fill byte) []byte {
+	var lenEnc []byte
+	ll := litLen - 7
+	switch {
+	case ll < 254:
+		lenEnc = []byte{byte(ll)}
+	case ll < 65536+254:
+		v := ll - 254
+		lenEnc = []byte{254, byte(v >> 8), byte(v)}
+	default:
+		v := ll - 255
+		lenEnc = []byte{255, byte(v >> 16), byte(v >> 8), byte(v)}
+	}
+	tk := 13 + len(lenEnc) + litLen
+	le32 := func(v int) []byte { return []byte{byte(v), byte(v >> 8), byte(v >> 16), byte(v >> 24)} }
+	blk := append([]byte{}, le32(tk)...)
+	blk = append(blk, le32(1)...)
+	blk = append(blk, le32(0)...)
+	blk = append(blk, 0)
+	blk = append(blk, lenEnc...)
+	for i := 0; i < litLen; i++ {
+		blk = append(blk, fill)
+	}
+	return append(blk, 0xE0)
+}
+
+// bombMutations: forged transform payloads that are small on the wire and ask the inverse transform for more output than a reader
+// of the declared block size provides (a literal run longer than the block for LZ / LZX), behind every entropy codec
+func bombMutations(seed int64) (*baseStream, []mutation) {
+	var out []mutation
+	var first *baseStream
+	for _, tf := range []string{"LZ", "LZX"} {
+		for _, B := range []uint{1024, 4096, 16384, 65536} {
+			for ci, ck := range []uint{0, 32} {
+				w := kz.Cfg{Transform: tf, Entropy: "NONE", Block: B, Jobs: 1, Ck: ck, Hint: -1}
+				for ei, en := range []string{"ANS0", "HUFFMAN", "NONE", "FPAQ", "RANGE"} {
+					w.Entropy = en
+					valid, err := kz.Compress(gen.Make("text", seed, 300), w, nil, nil)
+					if err != nil {
+						continue
+					}
+					st, perr := kzfmt.Parse(valid, false, 0)
+					if perr != nil || st.H.Bits%8 != 0 {
+						continue
+					}
+					if first == nil {
+						first = &baseStream{desc: "forged transform payloads (LZ literal-only blocks)", w: w, stream: valid, st: st}
+					}
+					hdr := valid[:st.H.Bits/8]
+					// the reader accepts a transformed block of up to about 1.5 x block size
+					for li, litLen := range []int{int(B) + 1, int(B) + int(B)/16 + 600, int(B) + int(B)/3, int(B) - 1, 3 * int(B) / 2} {
+						d, e := reframe1(hdr, int(ck), lzLiteralOnly(litLen, byte('A'+(ci+ei+li)%20)), en)
+						if e == nil {
+							out = append(out, mutation{fmt.Sprintf("forged %s&%s B=%d ck=%d: literal-only block of %d bytes", tf, en, B, ck, litLen), d})
+						}
+					}
+				}
+			}
+		}
+	}
+	return first, out
+}
+
+// shrinkMutations: the declared block size forged to smaller legal values (header checksum recomputed). The frames are small (the
+// data compress well), so they pass the frame-size test, but every stage wants to produce far more than the buffers of a reader
+// that believes the header can hold: inverse transforms and entropy decoders must notice on their own.
+func shrinkMutations(b *baseStream) []mutation {
+	var out []mutation
+	h := b.st.H
+	for _, v := range []int{1024, 2048, 4096, 16384, 32768} {
+		if v >= h.BlockSize {
+			continue
+		}
+		d := clone(b.stream)
+		kzfmt.SetBits(d, h.OffBlockSize, 28, uint64(v>>4))
+		kzfmt.FixHeaderChecksum(d)
+		out = append(out, mutation{fmt.Sprintf("hdr.blockSize=%d (really %d)", v, h.BlockSize), d})
+	}
+	return out
+}
+
+// shrinkBases: every transform (entropy NONE / ANS0 / HUFFMAN in turn) and every entropy codec on well compressible data, 64 KiB blocks
+func shrinkBases(seed int64) []*baseStream {
+	var out []*baseStream
+	mk := func(tf, en string, k int) {
+		shape := []string{"zeros", "runs", "text", "sparse", "dna"}[k%5]
+		size := 65536 + 30000 + 16*k
+		w := kz.Cfg{Transform: tf, Entropy: en, Block: 65536, Jobs: 1, Ck: []uint{0, 32}[k%2], Hint: -1}
+		data := gen.Make(shape, seed*37+int64(k), size)
+		stream, err := kz.Compress(data, w, nil, nil)
+		if err != nil {
+			return
+		}
+		st, perr := kzfmt.Parse(stream, false, 0)
+		if perr != nil || len(st.Blocks) == 0 {
+			return
+		}
+		out = append(out, &baseStream{desc: fmt.Sprintf("%s&%s B=65536 n=%d ck=%d %s", tf, en, size, w.Ck, shape), w: w, data: data, stream: stream, st: st})
+	}
+	k := 0
+	for _, tf := range transformNames[1:] {
+		for _, en := range []string{"NONE", []string{"ANS0", "HUFFMAN", "FPAQ"}[k%3]} {
+			mk(tf, en, k)
+			k++
+		}
+	}
+	for _, en := range entropyNames[1:] {
+		mk("NONE", en, k)
+		mk("LZ", en, k+1)
+		k += 2
+	}
+	return out
+}
+
 // frameBases: every entropy codec x checksum on untransformed data, every transform with entropy NONE
 func frameBases(seed int64) []*baseStream {
 	var out []*baseStream
@@ -503,6 +671,12 @@ func cmdC03(args []string) int {
 		for _, b := range frameBases(*seed) {
 			addAll(b, frameMutations(b), 20000)
 		}
+		for _, b := range shrinkBases(*seed) {
+			addAll(b, shrinkMutations(b), 20000)
+		}
+		if b, ms := bombMutations(*seed); b != nil {
+			addAll(b, ms, 20000)
+		}
 	}
 	for k := 0; k < *nbig; k++ {
 		b := makeBase(rnd, 5000+k+int(*seed)*1000, *thorough, true)
@@ -562,7 +736,7 @@ func cmdC03(args []string) int {
 					}
 					f.Close()
 				}
-				progressed := 0
+				progressed := start
 				for i := start; i < len(mine); i++ {
 					if r, ok := done[mine[i].ID]; ok {
 						mu.Lock()
